@@ -152,7 +152,136 @@ fn report_failure(args: &Args, rep: &mut Report, ast: &OpeningHoursExpression, h
     rep.violation("date_range_bounds", format!("{text:?} [{}]: {what}", hol.to_string()), json!({"expr": text, "holidays": hol.to_string(), "instant": t.to_string(), "horizon_days": horizon}), known);
 }
 
+/// Edge grid: for the one-parameter expressions of the C02 grids (day selectors and time shapes),
+/// the streams of windows straddling both ends of the supported range are compared exactly with
+/// what evaluating every day inside the range gives: closed before 1900-01-01, nothing reported
+/// beyond 10000-01-01, state closed outside, next_change = None in the last run.
+fn edge_grid(args: &Args, rep: &mut Report) {
+    let ymd = |y: i32, m: u32, d: u32| NaiveDate::from_ymd_opt(y, m, d).unwrap();
+    let mut exprs = stream::grid_day_selectors(args.thorough(), args.seed + 2);
+    let shapes = stream::grid_time_shapes(args.thorough(), args.seed);
+    // time shapes under day selectors that apply at the edges
+    for (i, t) in shapes.iter().enumerate() {
+        if args.thorough() || i % 7 == (args.seed % 7) as usize {
+            exprs.push(t.clone());
+        }
+    }
+    for extra in ["1900", "9999", "1900-9999/3", "1900 Jan 01", "9999 Dec 31", "Dec 31 22:00-26:00", "Jan 01 00:00-24:00", "9999 Dec 31 12:00-48:00", "Dec 25-Jan 05", "week 52-01", "1899-1901", "9998-9999 Dec"] {
+        exprs.push(extra.to_string());
+    }
+    for (i, text) in exprs.iter().enumerate() {
+        if (i as u64) % args.of.max(1) != args.worker {
+            continue;
+        }
+        let Some(oh) = build(text, &HolSpec::None) else {
+            rep.count("edge_grid_skipped_parser_rejects");
+            continue;
+        };
+        rep.evaluations += 1;
+        rep.begin(&format!("edge grid {text}"));
+        let verdict = edge_verdict(&oh);
+        match verdict {
+            Ok(()) => {
+                rep.count("edge_grid_expressions_passed");
+                rep.nontrivial(crate::rng::hash64(&format!("edge|{text}")));
+            }
+            Err(msg) => {
+                rep.violation("date_range_edges", format!("{text:?} [none]: {msg}"), json!({"expr": text, "holidays": "none", "edge_grid": true}), None);
+                if rep.full() {
+                    return;
+                }
+            }
+        }
+    }
+}
+
+/// Both edges of the supported range for one value (see `edge_grid`).
+fn edge_verdict(oh: &Oh) -> Result<(), String> {
+    let ymd = |y: i32, m: u32, d: u32| NaiveDate::from_ymd_opt(y, m, d).unwrap();
+        // lower edge
+        let from = ymd(1899, 12, 25).and_hms_opt(6, 30, 0).unwrap();
+        let to = ymd(1900, 1, 20).and_hms_opt(0, 0, 0).unwrap();
+        let mut expect: Vec<(NaiveDateTime, RuleKind)> = vec![(from, RuleKind::Closed)];
+        for run in stream::expected_runs(&oh, ymd(1900, 1, 1), ymd(1900, 1, 19))? {
+            if expect.last().map(|l| l.1) != Some(run.1) {
+                expect.push(run);
+            }
+        }
+        let got = guarded(|| oh.iter_range(from, to).map(|i| (i.range.start, i.range.end, i.kind, i.comments.len())).collect::<Vec<_>>())?;
+        compare_runs(&expect, to, &got, &format!("iter_range({from}, {to})"))?;
+        if let Some(first) = got.first() {
+            if first.0 < ymd(1900, 1, 1).and_hms_opt(0, 0, 0).unwrap() && first.3 != 0 {
+                return Err(format!("iter_range({from}, {to}): the interval before 1900-01-01 carries comments"));
+            }
+        }
+        for t in [from, ymd(1899, 12, 31).and_hms_opt(23, 59, 59).unwrap(), ymd(-262_000, 6, 1).and_hms_opt(0, 0, 0).unwrap()] {
+            let st = guarded(|| oh.state(t))?;
+            if st != RuleKind::Closed {
+                return Err(format!("state({t}) = {st} before 1900-01-01"));
+            }
+            let nc = guarded(|| oh.next_change(t))?;
+            let exp_nc = expect.get(1).map(|r| r.0);
+            // the first change after the lower edge, if it falls inside the compared window
+            if exp_nc.is_some() && nc != exp_nc {
+                return Err(format!("next_change({t}) = {nc:?}; evaluating every day from 1900-01-01 gives the first change at {exp_nc:?}"));
+            }
+        }
+        // upper edge
+        let from = ymd(9999, 12, 20).and_hms_opt(17, 45, 0).unwrap();
+        let to = ymd(10_000, 1, 15).and_hms_opt(0, 0, 0).unwrap();
+        let end = stream::date_end();
+        let mut expect = stream::expected_runs(&oh, ymd(9999, 12, 20), ymd(9999, 12, 31))?;
+        // the first run starts at the requested instant
+        while expect.len() > 1 && expect[1].0 <= from {
+            expect.remove(0);
+        }
+        expect[0].0 = from;
+        let got = guarded(|| oh.iter_range(from, to).map(|i| (i.range.start, i.range.end, i.kind, i.comments.len())).collect::<Vec<_>>())?;
+        compare_runs(&expect, end, &got, &format!("iter_range({from}, {to})"))?;
+        let last_start = expect.last().unwrap().0;
+        for t in [last_start, end - Duration::minutes(1), last_start + (end - last_start) / 2] {
+            let nc = guarded(|| oh.next_change(t))?;
+            if nc.is_some() {
+                return Err(format!("next_change({t}) = {nc:?} although the state does not change any more before 10000-01-01"));
+            }
+        }
+        for t in [end, end + Duration::seconds(1), ymd(10_000, 1, 15).and_hms_opt(12, 0, 0).unwrap(), ymd(262_000, 6, 1).and_hms_opt(0, 0, 0).unwrap()] {
+            let st = guarded(|| oh.state(t))?;
+            if st != RuleKind::Closed {
+                return Err(format!("state({t}) = {st} after 9999-12-31"));
+            }
+            if let Some(x) = guarded(|| oh.next_change(t))? {
+                return Err(format!("next_change({t}) = {x} from beyond the supported range"));
+            }
+            let n = guarded(|| oh.iter_range(t, t + Duration::days(3)).count())?;
+            if n != 0 {
+                return Err(format!("iter_range({t}, +3 days) yields {n} interval(s) beyond the supported range"));
+            }
+        }
+        Ok(())
+}
+
+fn compare_runs(expect: &[(NaiveDateTime, RuleKind)], end: NaiveDateTime, got: &[(NaiveDateTime, NaiveDateTime, RuleKind, usize)], what: &str) -> Result<(), String> {
+    for (k, (start, kind)) in expect.iter().enumerate() {
+        let e = expect.get(k + 1).map(|n| n.0).unwrap_or(end);
+        match got.get(k) {
+            None => return Err(format!("{what} ends after {} interval(s); evaluating every day gives {kind} from {start} to {e}", got.len())),
+            Some((gs, ge, gk, _)) if (gs, ge, gk) != (start, &e, kind) => return Err(format!("{what} interval #{k} is [{gs}, {ge}) {gk}; evaluating every day gives [{start}, {e}) {kind}")),
+            _ => {}
+        }
+    }
+    if got.len() > expect.len() {
+        let x = got[expect.len()];
+        return Err(format!("{what} yields an extra interval [{}, {}) {}", x.0, x.1, x.2));
+    }
+    Ok(())
+}
+
 pub fn run(args: &Args, rep: &mut Report) {
+    edge_grid(args, rep);
+    if rep.full() {
+        return;
+    }
     let n = args.cases(40_000, 400_000);
     let horizon = if args.thorough() { 40 * 366 } else { 3 * 366 };
     let mut st = PointwiseStats::default();
@@ -204,6 +333,17 @@ pub fn run(args: &Args, rep: &mut Report) {
 pub fn replay(args: &Args, case: &Value, rep: &mut Report) {
     let text = case_expr(case);
     let hol = case_hol(case);
+    if case["edge_grid"].as_bool() == Some(true) {
+        rep.evaluations += 1;
+        let Some(oh) = build(&text, &hol) else {
+            rep.violation("witness_rejected", format!("{text:?} does not parse"), case.clone(), None);
+            return;
+        };
+        if let Err(msg) = edge_verdict(&oh) {
+            rep.violation("date_range_edges", format!("{text:?} [{}]: {msg}", hol.to_string()), case.clone(), None);
+        }
+        return;
+    }
     let Some(t) = case["instant"].as_str().and_then(|s| NaiveDateTime::parse_from_str(s, "%Y-%m-%d %H:%M:%S%.f").ok()) else {
         rep.violation("bad_replay", "replay without instant".into(), case.clone(), None);
         return;
